@@ -368,10 +368,10 @@ func verifNsqToHttpGet() {
 		r.handle([]byte{}, false)
 	}
 	calls := r.tr.calls
-	verifrt.Reach("get-200-finished", len(calls) == 1 && !calls[0].failed && calls[0].status == 200)
+	verifrt.Reach("get-200-finished", len(calls) >= 1 && !calls[0].failed && calls[0].status == 200)
 	verifrt.Reach("get-204-outcome-open", len(calls) >= 1 && !calls[0].failed && calls[0].status == 204)
 	verifrt.Reach("get-500-requeued", len(calls) >= 1 && !calls[0].failed && calls[0].status == 500)
-	verifrt.Reach("get-mode-all-both", mode == ModeAll && len(calls) == 2)
+	verifrt.Reach("get-mode-all-both", mode == ModeAll && len(calls) >= 2 && calls[0].url != calls[1].url)
 }
 
 // GET relay, encoding: ANY body bytes (followed by a fixed tail of special characters) arrive
